@@ -124,6 +124,16 @@ int_atomic!(AtomicU32, u32, false);
 int_atomic!(AtomicU64, u64, false);
 int_atomic!(AtomicUsize, usize, false);
 
+/// A failed acquisition attempt on the lock word is followed by a loom yield:
+/// retrying at once is bound to fail again (nobody else ran), so the schedules
+/// this prunes are stutter-equivalent to the ones kept; without it the
+/// back-to-back retries of `spin_cond` (no yield between them when the machine
+/// reports more than one hardware thread) blow the schedule tree up.  The
+/// yield is loom's own, not the shim's `yield_now`, so monitors do not see it.
+fn spin_failed() {
+    loom::thread::yield_now();
+}
+
 /// Lazily created loom `AtomicBool` with a `const fn new`.
 pub struct AtomicBool {
     init: bool,
@@ -159,15 +169,27 @@ impl AtomicBool {
     }
     #[track_caller]
     pub fn swap(&self, v: bool, o: Ordering) -> bool {
-        self.a().swap(v, o)
+        let r = self.a().swap(v, o);
+        if r && v {
+            spin_failed();
+        }
+        r
     }
     #[track_caller]
     pub fn compare_exchange(&self, c: bool, n: bool, s: Ordering, f: Ordering) -> Result<bool, bool> {
-        self.a().compare_exchange(c, n, s, f)
+        let r = self.a().compare_exchange(c, n, s, f);
+        if r.is_err() {
+            spin_failed();
+        }
+        r
     }
     #[track_caller]
     pub fn compare_exchange_weak(&self, c: bool, n: bool, s: Ordering, f: Ordering) -> Result<bool, bool> {
-        self.a().compare_exchange_weak(c, n, s, f)
+        let r = self.a().compare_exchange_weak(c, n, s, f);
+        if r.is_err() {
+            spin_failed();
+        }
+        r
     }
     #[track_caller]
     pub fn fetch_or(&self, v: bool, o: Ordering) -> bool {
